@@ -298,6 +298,7 @@ func judge(prog *gen.Program, in ref.Inputs, out *Out, model *ref.Result) []find
 		switch out.ErrType {
 		case ref.EMissingFunds:
 			add("C03.spurious-failure", "the funds are there but the execution failed: "+out.Err.Error())
+			add("C04.underdrawn", "drawn in declared order, each source to its limit, the sources supply the amount; the draw stopped short: "+out.Err.Error())
 		case ref.EUnboundedInSendAll, ref.EAllotmentInSendAll:
 			add("C04.sendall-rejected", "a bounded / capped source under send-all was rejected: "+out.Err.Error())
 		default:
